@@ -14,13 +14,15 @@ func c07Specs(tier string) []*Spec {
 	}
 	k2 := bs("a", "b")
 	if tier == "quick" {
-		add("default/d5", defaultCfg, keys, 5, 2, true)
+		add("default/d6", defaultCfg, keys, 6, 2, true)
+		add("default/2keys/d7-maint3", defaultCfg, k2, 7, 3, true)
 		add("startoff/2keys/d6", Cfg{Fast: false}, k2, 6, 3, true)
-		add("cache1000/d4", Cfg{Fast: true, Cache: 1000}, keys, 4, 2, true)
-		add("flush150/d4", Cfg{Fast: true, Flush: 150}, keys, 4, 2, true)
+		add("cache1000/d5", Cfg{Fast: true, Cache: 1000}, keys, 5, 2, true)
+		add("flush150/d5", Cfg{Fast: true, Flush: 150}, keys, 5, 2, true)
 		return specs
 	}
 	add("default/d7", defaultCfg, keys, 7, 2, true)
+	add("default/2keys/d9-maint3", defaultCfg, k2, 9, 3, true)
 	add("startoff/2keys/d8", Cfg{Fast: false}, k2, 8, 3, true)
 	add("cache1000/d6", Cfg{Fast: true, Cache: 1000}, keys, 6, 2, true)
 	add("flush150/d6", Cfg{Fast: true, Flush: 150}, keys, 6, 2, true)
